@@ -67,7 +67,8 @@ type Sym struct {
 	NetErr     int    // 1 temporary network error, 2 permanent network error
 	// gRPC
 	Code      uint32
-	RetryInfo bool // status carries a RetryInfo detail with RetryDelay = Hint
+	RetryInfo bool          // status carries a RetryInfo detail ...
+	Delay     time.Duration // ... with this RetryDelay (a Hint only where the statement allows a retry)
 	// partial success content
 	Rejected int64
 	Message  string
@@ -536,9 +537,7 @@ func PartialBody(rejected int64, msg string) []byte {
 	return append([]byte{0x0a, byte(len(p))}, p...)
 }
 
-type roundTripper struct{ tg *Target }
-
-var rtTarget *Target
+type roundTripper struct{}
 
 // RoundTripper returns the scripted transport; it never opens a socket.
 func RoundTripper() http.RoundTripper { return roundTripper{} }
@@ -741,13 +740,7 @@ func (d *driver) exec(sc script, cfg Config, realWait bool) *runState {
 		rs.err = rs.exp.Export(rs.uctx)
 		rs.returned = true
 	}()
-	if !d.wd.Stop() {
-		select {
-		case <-d.wd.C:
-		default:
-		}
-	}
-	d.wd.Reset(watchdog)
+	d.arm()
 	select {
 	case <-done:
 	case <-d.wd.C:
@@ -756,7 +749,7 @@ func (d *driver) exec(sc script, cfg Config, realWait bool) *runState {
 		return rs
 	}
 	if rs.shutStarted {
-		d.wd.Reset(watchdog)
+		d.arm()
 		select {
 		case <-rs.shutDone:
 		case <-d.wd.C:
@@ -765,6 +758,16 @@ func (d *driver) exec(sc script, cfg Config, realWait bool) *runState {
 		}
 	}
 	return rs
+}
+
+func (d *driver) arm() {
+	if !d.wd.Stop() {
+		select {
+		case <-d.wd.C:
+		default:
+		}
+	}
+	d.wd.Reset(watchdog)
 }
 
 func (rs *runState) render() string {
@@ -829,10 +832,7 @@ func (rs *runState) outcome(tg *Target, ex expect) string {
 	}
 	var b strings.Builder
 	for _, st := range rs.steps {
-		b.WriteByte(st.k)
-		if st.k == 'W' && st.s == nil {
-			// waits are classified by whether they honour a hint, not by their random length
-		}
+		b.WriteByte(st.k) // waits by their place, not by their (random back-off) length
 	}
 	return fmt.Sprintf("%s|%s|handler=%d|shutdown=%v", b.String(), fin, len(rs.handler), rs.shutStarted)
 }
@@ -1015,13 +1015,16 @@ func (d *driver) expand(parent script, s *Sym, cfg Config, counted bool) []scrip
 		try(Event{Kind: EvAtAttempt, Pos: pos, What: what})
 	}
 	// the wait that followed attempt pos in the event-free run, if there was one
-	waitNo, seen := 0, 0
+	waitNo, seen, last := 0, 0, 0
 	for _, st := range rs.steps {
-		if st.k == 'W' {
+		switch st.k {
+		case 'A', 'I':
+			last = st.n
+		case 'W':
 			seen++
-		}
-		if st.k == 'W' && waitNo == 0 && lastAttemptBefore(rs.steps, st) == pos {
-			waitNo = seen
+			if last == pos && waitNo == 0 {
+				waitNo = seen
+			}
 		}
 	}
 	if waitNo == 0 {
@@ -1034,19 +1037,6 @@ func (d *driver) expand(parent script, s *Sym, cfg Config, counted bool) []scrip
 		}
 	}
 	return open
-}
-
-func lastAttemptBefore(steps []step, target step) int {
-	last := 0
-	for _, st := range steps {
-		if st.k == 'W' && st.n == target.n {
-			return last
-		}
-		if st.k == 'A' || st.k == 'I' {
-			last = st.n
-		}
-	}
-	return last
 }
 
 func (d *driver) bounds() {
